@@ -235,3 +235,105 @@ func TwoNeighbourLiterals(t []byte, s, e, minMatch, window int) int {
 	}
 	return lits
 }
+
+// DoublingSA computes the suffix array by prefix doubling (O(n log^2 n)),
+// independent of the library and of the text's repetitiveness.
+func DoublingSA(t []byte) []int32 {
+	n := len(t)
+	sa := make([]int32, n)
+	rank := make([]int32, n)
+	tmp := make([]int32, n)
+	for i := range sa {
+		sa[i] = int32(i)
+		rank[i] = int32(t[i])
+	}
+	for k := 1; ; k <<= 1 {
+		key := func(i int32) (int32, int32) {
+			b := int32(-1)
+			if int(i)+k < n {
+				b = rank[int(i)+k]
+			}
+			return rank[i], b
+		}
+		sort.Slice(sa, func(x, y int) bool {
+			a1, a2 := key(sa[x])
+			b1, b2 := key(sa[y])
+			if a1 != b1 {
+				return a1 < b1
+			}
+			return a2 < b2
+		})
+		if n == 0 {
+			return sa
+		}
+		tmp[sa[0]] = 0
+		for i := 1; i < n; i++ {
+			a1, a2 := key(sa[i-1])
+			b1, b2 := key(sa[i])
+			tmp[sa[i]] = tmp[sa[i-1]]
+			if a1 != b1 || a2 != b2 {
+				tmp[sa[i]]++
+			}
+		}
+		copy(rank, tmp)
+		if int(rank[sa[n-1]]) == n-1 || k > n {
+			return sa
+		}
+	}
+}
+
+// PrevMatcher answers longest-previous-match queries on a fixed text through
+// its suffix array and LCP table: the longest common prefix of t[pos:] with any
+// t[src:], src < pos (matches may overlap pos and end at the end of t).
+type PrevMatcher struct {
+	t    []byte
+	sa   []int32
+	rank []int32
+	lcp  []int32
+}
+
+// NewPrevMatcher prepares t.
+func NewPrevMatcher(t []byte) *PrevMatcher {
+	m := &PrevMatcher{t: t, sa: DoublingSA(t)}
+	m.rank = make([]int32, len(t))
+	for r, p := range m.sa {
+		m.rank[p] = int32(r)
+	}
+	m.lcp = Kasai(t, m.sa)
+	return m
+}
+
+// Longest returns the length of the longest previous match at pos and the
+// nearest source among those of that length found by the two scans (-1: none).
+func (m *PrevMatcher) Longest(pos int) (best, src int) {
+	src = -1
+	r := int(m.rank[pos])
+	// towards smaller suffixes
+	h := int32(1 << 30)
+	for q := r; q > 0; q-- {
+		if m.lcp[q] < h {
+			h = m.lcp[q]
+		}
+		if int(h) <= best {
+			break
+		}
+		if int(m.sa[q-1]) < pos {
+			best, src = int(h), int(m.sa[q-1])
+			break
+		}
+	}
+	h = 1 << 30
+	for q := r + 1; q < len(m.sa); q++ {
+		if m.lcp[q] < h {
+			h = m.lcp[q]
+		}
+		if int(h) <= best {
+			break
+		}
+		if int(m.sa[q]) < pos {
+			best, src = int(h), int(m.sa[q])
+			break
+		}
+	}
+	return best, src
+}
